@@ -21,6 +21,7 @@ def judge (fam payload impl : String) : Verdict :=
   | "http.conv" => Http.Driver.judgeConv payload impl
   | "http.split" => Http.Driver.judgeSplit payload impl
   | "http.rawsplit" => Http.Driver.judgeRawSplit payload impl
+  | "http.trailer" => Http.Driver.judgeTrailer payload impl
   | "http.h2c" => Http.Driver.judgeH2c payload impl
   | "http.entry" => Http.Driver.judgeEntry payload impl
   | "kafka.conv" => Kafka.Driver.judgeConv payload impl
